@@ -18,7 +18,7 @@ BINS = [b for b in ["h_justice", "h_filterblock"] if os.path.exists(os.path.join
 LEVEL = "proof"
 MANIFEST = {
     "category": "proof",
-    "text": "Coq theorems over a transliterated model of the ChannelMonitor's counterparty-commitment memory: for every hash function, seed, assignment of commitments (any HTLC sets, dust or not, both directions) and any number n <= 2^48 of update rounds, the monitor still derives the revocation secret of EVERY revoked commitment and still holds its HTLC list with output indices (only sources pruned); the claim set computed when such a transaction confirms is exactly its revokeable outputs plus every HTLC output, without duplicates; the block filter keeps a transaction as soon as ANY of its inputs spends a watched outpoint or an output of a transaction kept earlier in the block; for every list of cheater second-stage transactions (any number of inputs, HTLC inputs at any position) delivered later OR in the commitment's own block in any order, the tracked claims are the claims not spent by them plus every second-stage output; over the feerate_bump regenerated from package.rs, a forced or scheduled bump pays at least the capped fresh estimate whenever that exceeds the previous feerate and never lowers the fee, and a claim is re-issued within every LOW_FREQUENCY_BUMP_INTERVAL blocks under any estimate trajectory while bumps stay affordable. Runtime validation on real nodes (not proof): every cheater-paying output of the confirmed revoked commitment and every second-stage output is spent by the victim's consensus-verified transactions, re-broadcast feerates do not decrease and follow min(fresh estimate, affordable) on scripted estimator trajectories, the monitor's filter_block agrees with the model on generated blocks, balances drain to empty with SpendableOutputs for everything recovered, value is conserved; compared with the model's claim set.",
+    "text": "Coq theorems over a transliterated model of the ChannelMonitor's counterparty-commitment memory: for every hash function, seed, assignment of commitments (any HTLC sets, dust or not, both directions) and any number n <= 2^48 of update rounds, the monitor still derives the revocation secret of EVERY revoked commitment and still holds its HTLC list with output indices (only sources pruned); the claim set computed when such a transaction confirms is exactly its revokeable outputs plus every HTLC output, without duplicates; the block filter keeps a transaction as soon as ANY of its inputs spends a watched outpoint or an output of a transaction kept earlier in the block; for every list of cheater second-stage transactions (any number of inputs, HTLC inputs at any position) delivered later OR in the commitment's own block in any order, the tracked claims are the claims not spent by them plus every second-stage output; over the feerate_bump regenerated from package.rs, a forced or scheduled bump pays at least the capped fresh estimate whenever that exceeds the previous feerate and never lowers the fee, and a claim is re-issued within every LOW_FREQUENCY_BUMP_INTERVAL blocks under any estimate trajectory while bumps stay affordable; for every history of block connections and disconnections shallower than ANTI_REORG_DELAY (measured from the highest tip seen) that ends at its highest tip, the monitor's awaiting-confirmation table and its conclusions (spendable outputs) are those of the straight-line delivery of the final chain. Runtime validation on real nodes (not proof): every cheater-paying output of the confirmed revoked commitment and every second-stage output is spent by the victim's consensus-verified transactions, re-broadcast feerates do not decrease and follow min(fresh estimate, affordable) on scripted estimator trajectories, the monitor's filter_block agrees with the model on generated blocks, after reorganisations around every tracked confirmation (fork point on / above / below its block, Listen and Confirm APIs) the result is that of the final chain -- each recovered output reported through SpendableOutputs exactly once, as by a twin monitor fed the final chain straight --, balances drain to empty with SpendableOutputs for everything recovered, value is conserved; compared with the model's claim set.",
     "note": "Partial: script/consensus validity, signatures, weights, package aggregation/splitting and the fee estimator are validated at run time on the real implementation, not proved; fee adequacy is proved relative to the estimate handed to the regenerated feerate_bump. Trusted: Coq kernel, the hand transliteration Model/Justice.v (+ Model/Shachain.v), the rs2v translation Gen/Package.v, LDK functional_test_utils, bitcoinconsensus.",
     "technique": "machine-checked proof in Coq (history induction + the C05 shachain refinement) + end-to-end runtime validation of the implementation's justice transactions against the model's claim set",
 }
@@ -198,23 +198,32 @@ def analyse(rec):
     # all of B's broadcasts, by txid
     btx = {}
     bcast_seq = []
+    epoch = 0      # a reorganisation starts a new epoch: claims are re-made from a lower height
     for b in rec["blocks"]:
+        if b.get("phase") == "reorg_disconnect":
+            epoch += 1
         for t in b.get("bcast", []):
             btx[t["txid"]] = t
-            bcast_seq.append((b["h"], t))
+            bcast_seq.append((b["h"], t, epoch))
             if t.get("verify") != "ok":
                 fails.append({"why": "a transaction broadcast by the victim fails consensus verification against the outputs it spends: %s (%s)" % (t["txid"], t.get("verify"))})
-    # simulated chain: who spent what
+    # simulated chain: who spent what -- on the FINAL chain (blocks that were reorganised out do not count)
     spent_by = {}
     mined = []
-    for b in rec["blocks"]:
-        for txid in b.get("mined", []):
-            t = btx.get(txid) or a_htlc.get(txid) or (ctx_tx if txid == ctxid else None)
-            mined.append(txid)
-            if t is None:
-                continue
-            for i in t["inputs"]:
-                spent_by[i["prev"]] = txid
+    conf_h = {}
+    fc = rec.get("final_chain")
+    if fc:
+        order = [(c["height"], c["txid"]) for c in sorted(fc["confirmed"], key=lambda c: c["height"])]
+    else:
+        order = [(b["h"], txid) for b in rec["blocks"] for txid in b.get("mined", [])]
+    for h_, txid in order:
+        t = btx.get(txid) or a_htlc.get(txid) or (ctx_tx if txid == ctxid else None)
+        mined.append(txid)
+        conf_h[txid] = h_
+        if t is None:
+            continue
+        for i in t["inputs"]:
+            spent_by[i["prev"]] = txid
     outs = ctx_tx["outputs"]
     # cheater-paying outputs: the revokeable output and every HTLC output (what the monitor was told, which must
     # describe the transaction); everything else must be an anchor / P2A output or the victim's own output
@@ -227,6 +236,35 @@ def analyse(rec):
     if o_impl != o_mon:
         fails.append({"why": "the monitor's record of commitment %d (outputs %s) does not describe the transaction (cheater-paying outputs %s)" % (mon["number"], o_mon, o_impl)})
     spendable = {s_["outpoint"]: s_ for s_ in rec.get("spendable", [])}
+    # ---- reorganisations: the end result is determined by the final chain
+    ro = rec.get("reorg") if (rec.get("reorg") or {}).get("done") else None
+    plan = ("%s/%s/%+d/%s" % (ro["target"], ro["api"], ro["fork_rel"], ro["regrow"])) if ro else None
+    live = {}
+    for s_ in rec.get("spendable", []):
+        live[(s_["outpoint"], s_["value"])] = live.get((s_["outpoint"], s_["value"]), 0) + 1
+    for (op, val), cnt in sorted(live.items()):
+        if cnt > 1:
+            fails.append({"why": "the recovered output %s (%d sat) is reported through Event::SpendableOutputs %d times" % (op, val, cnt), "reorg": ro})
+    for s_ in rec.get("spendable", []):
+        tx_ = s_["outpoint"].split(":")[0]
+        if fc and tx_ in conf_h and s_.get("h") is not None and s_["h"] < conf_h[tx_] + 5:
+            fails.append({"why": "output %s is reported spendable at height %d, before its transaction (confirmed at %d on the final chain) is ANTI_REORG_DELAY deep" % (s_["outpoint"], s_["h"], conf_h[tx_]), "reorg": ro})
+        if fc and tx_ not in conf_h:
+            fails.append({"why": "output %s is reported spendable although its transaction is not on the final chain" % s_["outpoint"], "reorg": ro})
+    tw = rec.get("twin")
+    if tw is not None:
+        twin = {}
+        for s_ in tw.get("spendable", []):
+            twin[(s_["outpoint"], s_["value"])] = twin.get((s_["outpoint"], s_["value"]), 0) + 1
+        for (op, val) in sorted(set(twin) - set(live)):
+            fails.append({"why": "recovered value is never reported: output %s (%d sat) of a transaction confirmed on the final chain is reported through Event::SpendableOutputs by a monitor that is handed the same final chain straight, but never by the victim that lived through the reorganisation (%s)"
+                                 % (op, val, plan or "no reorganisation"), "reorg": ro})
+        for (op, val) in sorted(set(live) - set(twin)):
+            fails.append({"why": "the victim reports output %s (%d sat) as spendable, a monitor handed the same final chain straight does not (%s)" % (op, val, plan or "no reorganisation"), "reorg": ro})
+        if tw.get("balances") and not rec.get("final_balances"):
+            fails.append({"why": "the no-reorg twin on the final chain still has claimable balances: %s" % tw["balances"][:2], "reorg": ro})
+        if tw.get("tip") is not None and fc and tw["tip"] != fc["tip"]:
+            fails.append({"why": "harness: twin tip %s differs from the final tip %s" % (tw["tip"], fc["tip"])})
     second_stage = []     # (S txid, input index, commitment vout)
     burn = False
     for v in o_impl:
@@ -248,8 +286,8 @@ def analyse(rec):
     # ---- fee discipline of re-issued claims
     est_at = dict((h, e) for h, e in (rec.get("conf_target_feerates") or []))
     per_set = {}
-    for h, t in bcast_seq:
-        key = tuple(sorted(i["prev"] for i in t["inputs"]))
+    for h, t, ep in bcast_seq:
+        key = (ep,) + tuple(sorted(i["prev"] for i in t["inputs"]))
         made = t.get("locktime", h) if t.get("locktime", 0) < 500000000 else h
         per_set.setdefault(key, {})[t["txid"]] = (made, t)
     min_delta = None
@@ -264,7 +302,7 @@ def analyse(rec):
             delta = r - p
             min_delta = delta if min_delta is None else min(min_delta, delta)
             if delta < -tol:
-                fails.append({"why": "a claim was re-issued with a lower feerate (%d sat/kw at height %d -> %d at height %d)" % (p, h1, r, h2), "inputs": list(key)})
+                fails.append({"why": "a claim was re-issued with a lower feerate (%d sat/kw at height %d -> %d at height %d)" % (p, h1, r, h2), "inputs": list(key[1:])})
             if r > p + tol:
                 n_bumps += 1
                 ests = [est_at[x] for x in (h2, h2 + 1) if x in est_at]
@@ -274,7 +312,7 @@ def analyse(rec):
                     want = min(est, afford)
                     if want > p and r < want - (3 + want // 50):
                         fails.append({"why": "a re-issued justice claim does not follow the fee estimate: previous %d sat/kw, estimate for its confirmation target %d, affordable %d, new feerate only %d (height %d)"
-                                             % (p, est, afford, r, h2), "inputs": list(key)})
+                                             % (p, est, afford, r, h2), "inputs": list(key[1:])})
             if t2["fee"] * 2 > amt and t2["feerate"] > 20 * max(253, est_at.get(h2, 253)):
                 burn = True
         if seq[0][1]["feerate"] > 0:
@@ -325,6 +363,8 @@ def analyse(rec):
             for f in fails:
                 if "never spent" in f["why"] or "do not drain" in f["why"]:
                     f["key_override"] = KNOWN_BURN
+    stats["reorg"] = plan
+    stats["reorg_shape"] = ("%s fork%+d %s" % (ro["target"], ro["fork_rel"], "Listen" if ro["api"].startswith("listen") else "Confirm")) if ro else None
     s_same = [t for t in (rec.get("S_txs") or []) if t.get("same_block_as_commitment") and t["txid"] in mined]
     stats.update({"age": cheat.get("current_number", 0) and (cheat["number"] - cheat["current_number"]), "n_htlc_outputs": len(mon["htlcs"]),
                   "offered": sum(1 for h in mon["htlcs"] if h["offered"]), "received": sum(1 for h in mon["htlcs"] if not h["offered"]),
@@ -443,6 +483,7 @@ def run(ctx):
         "Coq 8.16.1 kernel + vm_compute",
         "Model/Justice.v: hand transliteration of provide_latest_counterparty_commitment_tx / provide_secret / check_spend_counterparty_transaction (revoked branch) / check_spend_counterparty_htlc / filter_block + spends_watched_output (the latter two also compared with the implementation on generated blocks); claim tracking abstracted to the set of outpoints",
         "Gen/Package.v: rs2v translation of feerate_bump / compute_fee_from_spent_amounts, regenerated from package.rs on every run (tools/rs2v)",
+        "Model/ChainView.v (C11's hand transliteration of the monitor's chain bookkeeping, validated by C11's check) for the reorganisation theorem; Gen/C06Pins.v: four source comparisons re-read on every run",
         "Model/Shachain.v and its theorems (C05)",
         "runtime validation only: script/consensus validity (bitcoinconsensus), signatures, weights, the fee estimator and mempool acceptance (fee adequacy is proved relative to the estimate given to feerate_bump and judged at run time on scripted estimator trajectories), package aggregation/splitting, the height timer (a premise of C06_bumped_until_buried; C07)",
         "LDK functional_test_utils, harness crate (h_justice, h_filterblock), hook ChannelMonitor::verif_filter_block (calls filter_block unchanged)",
@@ -463,7 +504,7 @@ def run(ctx):
     batches = 8 if quick else 16
     per = (n_scen + batches - 1) // batches
     seed = ctx.rng.fork("justice").next() & ((1 << 60) - 1)
-    flagsets = ["all", "late,styles", "reload,late", "all", "none", "all", "styles,reload", "late"]
+    flagsets = ["all", "late,styles,reorg", "reload,late", "all", "reorg", "all", "styles,reload,reorg", "late"]
     procs = []
     t0 = time.time()
     for b in range(batches):
@@ -487,7 +528,7 @@ def run(ctx):
     ctx.timed("harness_run_s", time.time() - t0)
     judge_fails = []
     cases = []
-    hist = {"age": {}, "style": {}, "second_stage": {}, "htlc_outputs": {}, "justice_txs": {}, "chan_type": {}, "same_block": {}, "trajectory": {}, "bumps": {}}
+    hist = {"age": {}, "style": {}, "second_stage": {}, "htlc_outputs": {}, "justice_txs": {}, "chan_type": {}, "same_block": {}, "trajectory": {}, "bumps": {}, "reorg": {}, "reorg_shape": {}}
     tot_recovered = tot_fees = 0
     both_dirs = 0
     min_delta = None
@@ -510,7 +551,7 @@ def run(ctx):
             case["replay"] = rp
             cases.append(case)
         for k, key in (("age", "age"), ("style", "style"), ("second_stage", "second_stage"), ("htlc_outputs", "n_htlc_outputs"), ("justice_txs", "justice_txs"),
-                       ("chan_type", "chan_type"), ("same_block", "same_block"), ("trajectory", "trajectory"), ("bumps", "bumps")):
+                       ("chan_type", "chan_type"), ("same_block", "same_block"), ("trajectory", "trajectory"), ("bumps", "bumps"), ("reorg", "reorg"), ("reorg_shape", "reorg_shape")):
             v = st.get(key)
             hist[k][str(v)] = hist[k].get(str(v), 0) + 1
         tot_recovered += st.get("recovered_sat", 0)
@@ -547,7 +588,10 @@ def run(ctx):
         "scenarios": len(recs), "model_cases": len(cases), "age_of_cheated_state_histogram": hist["age"], "connect_style_histogram": hist["style"],
         "second_stage_txs_histogram": hist["second_stage"], "channel_type_histogram": hist["chan_type"],
         "same_block_second_stage_histogram(chan_type/fee-input layouts)": hist["same_block"], "fee_trajectory_histogram": hist["trajectory"],
-        "fee_bumps_per_scenario_histogram": hist["bumps"], "htlc_outputs_on_cheated_commitment_histogram": hist["htlc_outputs"], "justice_txs_histogram": hist["justice_txs"],
+        "fee_bumps_per_scenario_histogram": hist["bumps"],
+        "reorg_histogram(tracked tx / fork point relative to its block / API)": hist["reorg_shape"],
+        "reorg_plan_histogram(target/api/fork_rel/regrow)": hist["reorg"],
+        "no_reorg_twins_compared": sum(1 for r in recs if r.get("twin") is not None), "htlc_outputs_on_cheated_commitment_histogram": hist["htlc_outputs"], "justice_txs_histogram": hist["justice_txs"],
         "cheated_commitments_with_htlcs_in_both_directions": both_dirs, "recovered_sat_total": tot_recovered, "fees_sat_total": tot_fees,
         "rebroadcast_min_feerate_delta": min_delta,
         "evaluations": len(recs), "distinct_nontrivial": len(set(c["expr"] for c in cases)),
